@@ -84,6 +84,11 @@ var literalCases = map[string]struct {
 		c: Case{Program: "fork (=> pass => pass) | count() by n", Meta: prog.Meta{Ordered: false, Deterministic: true}, Source: "grammar",
 			Input: gen.SeqFromZSON(`{n:1} {n:2} {n:3} {n:4} {n:5} {n:6}`), SortKey: "n", Reader: "plain", Frame: 1, Threads: 1, Batch: 1},
 	},
+	"known-C07-sortkey-summarize-keyfunc-nonnumeric": {
+		sig: "C07/sortkey-summarize/order-preserving-function-of-non-numeric-key", expect: "known",
+		c: Case{Program: "count() by bar:=floor(bar)", Meta: prog.Meta{Ordered: false, Deterministic: true}, Source: "grammar",
+			Input: gen.SeqFromZSON(`{a:1} {bar:null(error(uint64))} {a:2} {bar:null(error(uint64))}`), SortKey: "bar", Desc: true, Reader: "plain", Frame: 1, Threads: 1, Batch: 1},
+	},
 	"known-C07-sortkey-join-desc-nulls": {
 		sig: "C07/sortkey-join/desc-null-keys", expect: "known",
 		c: Case{Program: "fork (=> pass => put a:=a) | join on a=a b2:=b", Meta: prog.Meta{Ordered: false, Deterministic: true}, Source: "grammar",
